@@ -154,6 +154,9 @@ func kvExp(s string) *time.Time {
 	if s == "-" {
 		return nil
 	}
+	if s == "z" {
+		return &time.Time{} // a SET expiry holding the zero time: long past (the model reads it as instant 0; only used when now >= 1)
+	}
 	ms, _ := strconv.Atoi(s)
 	t := kvBase.Add(time.Duration(ms) * time.Millisecond)
 	return &t
@@ -161,6 +164,9 @@ func kvExp(s string) *time.Time {
 func kvShowExp(t *time.Time) string {
 	if t == nil {
 		return "-"
+	}
+	if t.IsZero() {
+		return "0"
 	}
 	return strconv.Itoa(int(t.Sub(kvBase) / time.Millisecond))
 }
@@ -635,6 +641,21 @@ func runKv(ctx *Ctx, kind string) {
 				kvRunCase(ctx, kind, "", ops)
 				ops2 := []string{"0 create a x " + e, fmt.Sprintf("%d %s", adv, f), fmt.Sprintf("%d create a z 9001", adv+2), fmt.Sprintf("%d get a", adv+4)}
 				kvRunCase(ctx, kind, "", ops2)
+			}
+		}
+	}
+	// 1b. writes whose expiry is ALREADY past when they are made (an ordinary past instant; the zero time.Time):
+	// the record is expired from the start on either backend (Redis keeps it for its 1 ms minimum TTL: the next
+	// operation comes 2 ms later), whichever operation looks first
+	for _, e := range []string{"z", "3"} {
+		for _, w := range []string{"put a x " + e, "create a x " + e, "putmany a:x:" + e + ",b:y:-", "cas a v2 x " + e, "putmany b:y:-,a:x:" + e} {
+			for _, f := range firsts {
+				ops := []string{"0 put b x -", "0 put a q -"}
+				if strings.HasPrefix(w, "create") {
+					ops = append(ops, "0 delete a")
+				}
+				ops = append(ops, "10 "+w, "12 "+f, "12 get a", "12 list *", "12 getmany a,b", "14 create a n -", "14 get a")
+				kvRunCase(ctx, kind, "", ops)
 			}
 		}
 	}
